@@ -47,6 +47,13 @@ func collectPhis(v ssa.Value, seen map[ssa.Value]bool, out *[]*ssa.Phi) {
 		collectPhis(x.X, seen, out)
 	case *ssa.IndexAddr:
 		collectPhis(x.Index, seen, out)
+	case *ssa.Extract:
+		collectPhis(x.Tuple, seen, out)
+	case *ssa.Call:
+		// arguments of a (pure helper) call the value is computed by
+		for _, a := range x.Call.Args {
+			collectPhis(a, seen, out)
+		}
 	}
 }
 
@@ -85,7 +92,7 @@ func ruleC18Index(cx *Ctx) {
 				collectPhis(ia.Index, seen, &phis)
 				collectPhis(sh.Y, seen, &phis)
 				if len(phis) == 0 {
-					tb := newTermBuilder()
+					tb := newInliningTermBuilder()
 					fpairs = append(fpairs, tb.of(ia.Index).String()+" @ "+tb.of(sh.Y).String())
 					continue
 				}
@@ -99,7 +106,7 @@ func ruleC18Index(cx *Ctx) {
 					continue
 				}
 				for i := lo; i < hi; i++ {
-					tb := newTermBuilder()
+					tb := newInliningTermBuilder()
 					tb.subst[phis[0]] = tConst(i)
 					fpairs = append(fpairs, tb.of(ia.Index).String()+" @ "+tb.of(sh.Y).String())
 				}
@@ -114,7 +121,7 @@ func ruleC18Index(cx *Ctx) {
 			return
 		}
 		a := callArgs(in)
-		tb := newTermBuilder()
+		tb := newInliningTermBuilder()
 		ipairs = append(ipairs, tb.of(a[0]).String()+" @ "+mk("<<", tb.of(a[1]), tConst(2)).String())
 	})
 	sort.Strings(fpairs)
@@ -146,17 +153,48 @@ func ruleC18Block(cx *Ctx) {
 	if freq == nil || inc == nil || ens == nil || bm == nil || tableF == nil {
 		return
 	}
-	want := mk("<<", mk("&", mk("call:hash", tVar("param0"), tVar("param1")), mk("field:blockMask", tVar("param0"))), tConst(3)).String()
-	for _, fn := range []*ssa.Function{freq, inc} {
-		found := false
-		allInstrs(fn, func(in ssa.Instruction) {
-			if b, ok := in.(*ssa.BinOp); ok && (b.Op == token.SHL || b.Op == token.MUL) {
-				if newTermBuilder().of(b).String() == want {
-					found = true
+	// the block offset is (h & blockMask) * 8 for a value h derived from the key; it may be computed in the function
+	// itself or in a straight-line helper it calls (a probe / locator type)
+	isBlock := func(t *Term) bool {
+		if t.Op != "*" || len(t.Args) != 2 {
+			return false
+		}
+		for i := 0; i < 2; i++ {
+			if !(t.Args[i].isConst() && t.Args[i].C == 8) {
+				continue
+			}
+			m := t.Args[1-i]
+			if m.Op != "&" || len(m.Args) != 2 {
+				continue
+			}
+			for j := 0; j < 2; j++ {
+				if strings.HasPrefix(m.Args[j].String(), "field:blockMask(") && strings.Contains(strings.ToLower(m.Args[1-j].String()), "hash") {
+					return true
 				}
 			}
-		})
-		cx.R.Check(found, rule, funcName(fn), "block term", cx.P.Pos(fn.Pos()), "block offset is "+want)
+		}
+		return false
+	}
+	for _, fn := range []*ssa.Function{freq, inc} {
+		found := false
+		seen := map[*ssa.Function]bool{}
+		var scan func(f *ssa.Function, depth int)
+		scan = func(f *ssa.Function, depth int) {
+			if f == nil || seen[f] || depth > 2 {
+				return
+			}
+			seen[f] = true
+			allInstrs(f, func(in ssa.Instruction) {
+				if b, ok := in.(*ssa.BinOp); ok && (b.Op == token.SHL || b.Op == token.MUL) && isBlock(newInliningTermBuilder().of(b)) {
+					found = true
+				}
+				if c := calleeOf(in); c != nil && c.Pkg != nil && c.Pkg.Pkg.Path() == modPath && len(origin(c).Blocks) == 1 {
+					scan(origin(c), depth+1)
+				}
+			})
+		}
+		scan(fn, 0)
+		cx.R.Check(found, rule, funcName(fn), "block term", cx.P.Pos(fn.Pos()), "block offset is (hash(k) & blockMask) * 8")
 	}
 	// ensureCapacity
 	name := funcName(ens)
@@ -175,7 +213,7 @@ func ruleC18Block(cx *Ctx) {
 		cx.R.Violate(rule, name, "stores", cx.P.Pos(ens.Pos()), "ensureCapacity no longer sets table and blockMask")
 		return
 	}
-	got := newTermBuilder().of(maskStore.Val).String()
+	got := newInliningTermBuilder().of(maskStore.Val).String()
 	wantMask := mk("-", mk(">>", mk("builtin:len", mk("field:table", tVar("param0"))), tConst(3)), tConst(1)).String()
 	cx.R.Check(got == wantMask && instrDominates(tableStore, maskStore), rule, name, "blockMask", cx.P.where(maskStore),
 		"blockMask = len(table)>>3 - 1 computed after the table was replaced (got "+got+")")
@@ -227,7 +265,7 @@ func ruleC18Sat(cx *Ctx) {
 			return
 		}
 		n++
-		tb := newTermBuilder()
+		tb := newInliningTermBuilder()
 		val := tb.of(st.Val).String()
 		shiftT := mk("<<", tVar("param2"), tConst(2))
 		wordT := mk("index", mk("field:table", tVar("param0")), tVar("param1"))
@@ -239,7 +277,7 @@ func ruleC18Sat(cx *Ctx) {
 			if !ok {
 				continue
 			}
-			l, r := newTermBuilder().of(b.X).String(), newTermBuilder().of(b.Y).String()
+			l, r := newInliningTermBuilder().of(b.X).String(), newInliningTermBuilder().of(b.Y).String()
 			mask := mk("<<", tConst(15), shiftT).String()
 			word := mk("&", mk("<<", tConst(15), shiftT), wordT).String()
 			if l > r {
@@ -271,9 +309,13 @@ func ruleC18Sat(cx *Ctx) {
 	allInstrs(freq, func(in ssa.Instruction) {
 		if c, ok := in.(*ssa.Call); ok && isBuiltinCall(c, "min") {
 			for _, a := range c.Call.Args {
-				if b, ok := a.(*ssa.BinOp); ok && b.Op == token.AND {
-					if k, ok := constUint(b.Y); ok && k == 15 {
-						masked++
+				// normal form: x & 15 (x % 16 on unsigned values normalises to the same term)
+				t := newInliningTermBuilder().of(a)
+				if t.Op == "&" && len(t.Args) == 2 {
+					for i := 0; i < 2; i++ {
+						if t.Args[i].isConst() && t.Args[i].C == 15 {
+							masked++
+						}
 					}
 				}
 			}
@@ -300,7 +342,7 @@ func ruleC18Reset(cx *Ctx) {
 		}
 		if ia, isIA := st.Addr.(*ssa.IndexAddr); isIA && sameField(fieldOf(ia.X), tableF) {
 			n++
-			tb := newTermBuilder()
+			tb := newInliningTermBuilder()
 			iv, first, bound, isInd := indexInduction(ia.Index)
 			if isInd {
 				tb.subst[iv] = tVar("i")
@@ -308,13 +350,13 @@ func ruleC18Reset(cx *Ctx) {
 			got := tb.of(st.Val).String()
 			wantT := mk("&", mk(">>", mk("index", mk("field:table", tVar("param0")), tVar("i")), tConst(1)), tConst(0x7777777777777777)).String()
 			cx.R.Check(got == wantT, rule, name, "halving", cx.P.where(st), "table[i] = (table[i] >> 1) & 0x7777777777777777 (got "+got+")")
-			full := isInd && first == 0 && newTermBuilder().of(bound).String() == "builtin:len(field:table(param0))"
+			full := isInd && first == 0 && newInliningTermBuilder().of(bound).String() == "builtin:len(field:table(param0))"
 			cx.R.Check(full, rule, name, "whole table", cx.P.where(st), "the halving loop runs over i = 0 .. len(table)-1")
 		}
 		if sameField(fieldOf(st.Addr), sizeF) {
-			got := newTermBuilder().of(st.Val).String()
+			got := newInliningTermBuilder().of(st.Val).String()
 			okSize := strings.HasPrefix(got, ">>(-(field:size(param0),>>(") && strings.HasSuffix(got, ",2)),1)")
-			if t := newTermBuilder().of(st.Val); t.Op == ">>" && len(t.Args) == 2 && t.Args[1].isConst() && t.Args[1].C == 1 && t.Args[0].Op == "-" && t.Args[0].Args[0].String() == "field:size(param0)" {
+			if t := newInliningTermBuilder().of(st.Val); t.Op == ">>" && len(t.Args) == 2 && t.Args[1].isConst() && t.Args[1].C == 1 && t.Args[0].Op == "-" && t.Args[0].Args[0].String() == "field:size(param0)" {
 				okSize = true
 			}
 			cx.R.Check(okSize, rule, name, "size", cx.P.where(st), "size = (size - oddCounters/4) >> 1 (got "+got+")")
@@ -341,7 +383,7 @@ func ruleC18Reset(cx *Ctx) {
 			if isCallTo(in, fn) {
 				for _, g := range guardsAt(in.Block()) {
 					if b, ok2 := g.Cond.(*ssa.BinOp); ok2 && b.Op == token.EQL && g.Truth {
-						s := newTermBuilder().of(b).String()
+						s := newInliningTermBuilder().of(b).String()
 						if strings.Contains(s, "field:sampleSize") {
 							ok = true
 						}
@@ -517,7 +559,7 @@ func ruleC18Admit(cx *Ctx) {
 			return
 		}
 		// random admission
-		got := newTermBuilder().of(ret.Results[0]).String()
+		got := newInliningTermBuilder().of(ret.Results[0]).String()
 		shape := strings.HasPrefix(got, "==(&(") && strings.Contains(got, "127") && strings.HasSuffix(got, ",0)")
 		warm := false
 		for _, g := range gs {
